@@ -23,7 +23,7 @@ Proof. intros K toks spn n m id x. exact (machine_ok_is_peg K toks spn n m (Memo
    for these inputs) where the table-free reading diverges; and on a grammar without left recursion
    the table-using machine returns what the table-free one returns *)
 Example C11_example :
-  let on := mkQ false false false false false false false false true in
+  let on := mkQ false false false false false false false false true None in
   let lr := Rec (Or (Memo 1 (Then (Var 0) (Then (Just [43%N]) (Just [97%N])))) (Just [97%N])) in
   fst (go on KRich [97; 43; 97]%N (fun a b => (a, b)) 40 Check lr env0 init_st) = Ok None
   /\ sem KRich [97; 43; 97]%N (fun a b => (a, b)) 40 lr env0 0 None = None
@@ -33,7 +33,7 @@ Proof. repeat split; vm_compute; reflexivity. Qed.
 
 (* the unchanged code (flag q_memo_take) loses the pending error of a failing memoized parser: finding F5 *)
 Example C11_F5_refuted :
-  let take := mkQ false false false false false false false true true in
+  let take := mkQ false false false false false false false true true None in
   let g := Or (Then (Just [97%N]) (Memo 1 (Just [98%N]))) (Just [120%N]) in
   run_top take KRich [97; 99]%N (fun a b => (a, b)) 20 Emit g
     <> run_top no_quirks KRich [97; 99]%N (fun a b => (a, b)) 20 Emit g.
